@@ -138,11 +138,16 @@ inductive Out where
 def createChan (c : Chan) : Chan :=
   if c.registered then c else { created := true, registered := true, alive := true }
 
+/-- create-or-get the channel object for `id` at one side.  Ghost: if an object for the id has
+existed here before and is no longer registered, or the conversation has already ended at this side,
+the id is being re-opened: it is marked `broken` (the per-conversation theorems exclude such ids). -/
+def createAt (x : SideSt) (id : Nat) : SideSt :=
+  { x with chans := upd x.chans id (createChan (x.chans id)),
+           broken := upd x.broken id
+             (x.broken id || (((x.chans id).created || x.ended id) && !(x.chans id).registered)) }
+
 /-- register every channel id contained in a decoded item (`load_channel` → `new(id)`) -/
-def registerAll (x : SideSt) (ids : List Nat) : SideSt :=
-  ids.foldl (fun x c =>
-    { x with chans := upd x.chans c (createChan (x.chans c)),
-             broken := upd x.broken c (x.broken c || ((x.chans c).created && !(x.chans c).registered)) }) x
+def registerAll (x : SideSt) (ids : List Nat) : SideSt := ids.foldl createAt x
 
 /-- `_no_longer_opened(id)`: unregister, pop the callback and fire its endmarker -/
 def noLongerOpened (x : SideSt) (id : Nat) : SideSt :=
@@ -245,8 +250,8 @@ def handle (fails : Item → Bool) (x : SideSt) (isWorker : Bool) : Frame → Si
   | .lastMsg id => localClose { x with closeSeen := upd x.closeSeen id true } id none true
   | .exec id =>
     if isWorker then
-      let c := createChan (x.chans id)
-      { x with chans := upd x.chans id { c with executing := true } }
+      let x := createAt x id
+      { x with chans := upd x.chans id { x.chans id with executing := true } }
     else x
   | .terminate => epilogue x false
 
@@ -256,7 +261,7 @@ def step (fails : Item → Bool) (st : State) : Op → Out × State
     if x.finished then (.osError, st)
     else
       let id := x.count
-      (.chan id, st.set s { x with count := x.count + 2, chans := upd x.chans id (createChan (x.chans id)) })
+      (.chan id, st.set s { createAt x id with count := x.count + 2 })
   | .remoteExec =>
     let x := st.a
     if x.finished then (.osError, st)
@@ -264,8 +269,7 @@ def step (fails : Item → Bool) (st : State) : Op → Out × State
       let id := x.count
       if !x.ioOpen then (.osError, st.set .A { x with count := x.count + 2 })
       else
-        (.chan id, st.set .A { x with count := x.count + 2, chans := upd x.chans id (createChan (x.chans id)),
-                                      out := x.out ++ [.exec id] })
+        (.chan id, st.set .A { createAt x id with count := x.count + 2, out := x.out ++ [.exec id] })
   | .send s id v =>
     let x := st.side s
     let c := x.chans id
@@ -340,7 +344,10 @@ def step (fails : Item → Bool) (st : State) : Op → Out × State
       | [] => (.notEnabled, st)
       | f :: rest =>
         let st1 := st.set p.peer { y with out := rest }
-        (.ok, st1.set p (handle fails (st1.side p) (p == .B) f))
+        let x' := handle fails (st1.side p) (p == .B) f
+        let st2 := st1.set p x'
+        -- a GATEWAY_TERMINATE ends the connection in both directions
+        if x'.finished then (.ok, st2.set p.peer { st2.side p.peer with ioOpen := false }) else (.ok, st2)
   | .execFinish id o =>
     let x := st.b
     let c := x.chans id
@@ -354,7 +361,11 @@ def step (fails : Item → Bool) (st : State) : Op → Out × State
       (r, st.set .B x')
   | .cut p =>
     let x := st.side p
-    if x.finished then (.notEnabled, st) else (.ok, st.set p (epilogue x true))
+    if x.finished then (.notEnabled, st)
+    else
+      -- the receiver of `p` saw EOF: `p` closes its IO, so the peer's writes fail from now on
+      let st1 := st.set p (epilogue x true)
+      (.ok, st1.set p.peer { st1.side p.peer with ioOpen := false })
 
 def run (fails : Item → Bool) (st : State) : List Op → List Out × State
   | [] => ([], st)
